@@ -479,6 +479,14 @@ bool ZCK_PUBLIC_API zck_init_write (zckCtx *zck, int dst_fd) {
     zck->temp_fd = get_tmp_fd(zck);
     if(zck->temp_fd < 0)
         return false;
+    /* Everywhere else a temp_fd of 0 means that there is no temporary file, so
+     * if descriptor 0 was free and we got it, move to another descriptor */
+    if(zck->temp_fd == 0) {
+        zck->temp_fd = dup(0);
+        close(0);
+    }
+    if(zck->temp_fd <= 0)
+        return false;
 
     /* Set defaults */
 #ifdef ZCHUNK_ZSTD
